@@ -28,7 +28,9 @@ def run(chk, prog):
     roots, net = scopes.network_scope(prog)
     load = prog.reachable_fns(scopes.load_scope(prog))
     scope = set(k for k in load if k not in net and prog.fns[k].crate == "redproxy_rs")
-    chk.floor("P-scope", len(scope), 100 if "metrics" in prog.features else 55, "functions on the load path")
+    # counted in named functions: closures may be analysed inside their users (engine/inline.py) and then do not exist on their own
+    chk.floor("P-scope", len([k for k in scope if prog.fns[k].kind in ("Fn", "AssocFn")]), 60 if "metrics" in prog.features else 43,
+              "named functions on the load path")
     n = panics.evaluate_scope(chk, prog, scope, rule="P", consequence="aborts the process while the configuration is loaded (panic=abort)")
     chk.floor("P", n, 40 if "metrics" in prog.features else 25, "panic edges on the load path")
     # the rule-language part (config text): same scope as C08
